@@ -15,7 +15,7 @@ def run(chk):
     tc.standard_plan(chk, "C04", "nt_C04", kinds_quick=("sort", "visual"))
     # VisualSORT batches with own-area gates: what a scene gets must not depend on the other scenes of its batch.
     # Disagreements that the one-scene batches show as well are not scene interference.
-    vkw = dict(depth=5, Sim=12, OwnUse=50, OwnCollect=50, Kind="batch", Slots={1, 2}, Confs={900}, Feats={1, 2}, Quals={30, 90}, MaxDets=2)
+    vkw = dict(depth=5, Sim=12, OwnUse=50, OwnCollect=50, Kind="batch", Slots={1, 2}, Confs={900, 800}, Feats={1}, Quals={90}, MaxDets=2)
     quick = chk.tier == "quick"
     r1, c1 = tc.generate_visual(chk, "v-own-one-scene", simulate={"num": 10 if quick else 100, "depth": 6}, Scenes={1}, **vkw)
     base = tc.replay_visual(chk, "v-own-one-scene", r1, c1, "batchvisual", 2, "all", "nt_C04", extra=[])
